@@ -73,6 +73,21 @@ func submgrCells(parked bool) []cellSpec {
 	return out
 }
 
+// submgrStaleCells: the manager's own sweep collects the list of expired sessions first and then terminates them one
+// by one (by id).  It is parked inside the allocator while it releases the address of the FIRST one; meanwhile
+// another session of its list ends by a path of its own; the sweep is released and comes to that session.
+func submgrStaleCells() []cellSpec {
+	var out []cellSpec
+	for _, p := range []string{"idle", "session-timeout"} {
+		for _, pre := range submgrPrefixes[p] {
+			for _, s := range []string{"stale:admin", "stale:coa-disconnect"} {
+				out = append(out, cellSpec{Kind: "submgr", Path: p, Prefix: pre, Second: s, ParkAt: "alloc"})
+			}
+		}
+	}
+	return out
+}
+
 func genSubMgr(s src, c cellSpec, base *params) *tcase {
 	tc := &tcase{Kind: c.Kind, Path: c.Path, Prefix: c.Prefix, Second: c.Second, ParkAt: c.ParkAt}
 	if base != nil {
@@ -96,6 +111,12 @@ func genSubMgr(s src, c cellSpec, base *params) *tcase {
 		by = append(by, "ip")
 	}
 	tc.P.CoABy = pick(s, "coa.by", by)
+	if secondShape(c.Second) == "stale" {
+		// the sweep needs a list: two background sessions that expire together with the session under test
+		for i := len(tc.P.BgMACs); i < 2; i++ {
+			tc.P.BgMACs = append(tc.P.BgMACs, genMAC(s, fmt.Sprintf("bg%d", i), i+1))
+		}
+	}
 	return tc
 }
 
@@ -214,6 +235,8 @@ type smRun struct {
 
 	me *smSess
 	bg []*smSess
+
+	allEnded bool
 }
 
 func (x *smRun) onEvent(ev *subscriber.SessionEvent) {
@@ -408,9 +431,10 @@ func (x *smRun) advance(d time.Duration, active []*smSess) {
 	}
 }
 
-func (x *smRun) terminate(path string) {
+func (x *smRun) terminate(path string) { x.terminateOn(path, x.me) }
+
+func (x *smRun) terminateOn(path string, me *smSess) {
 	ctx := context.Background()
-	me := x.me
 	switch path {
 	case "admin":
 		err := x.mgr.TerminateSession(ctx, me.id, subscriber.TerminateAdminReset)
@@ -518,9 +542,18 @@ func runSubMgrInBubble(tc *tcase, rs *radServer, res *result, dir string) {
 		x.auth.res[mac.String()] = &subscriber.AuthResult{Success: true, SubscriberID: "sub-" + mac.String(), ISPID: "isp", SessionTimeout: sessTimeout,
 			DownloadRateBps: 200_000_000, UploadRateBps: 20_000_000, IPv4PoolID: "isp-residential"}
 	}
+	pre0, err := w.census()
+	if err != nil {
+		res.harness = err.Error()
+		return
+	}
 	for i, m := range p.BgMACs {
 		b := &smSess{mac: net.HardwareAddr(m), cid: []byte(fmt.Sprintf("bg/%d", i)), stag: uint16(4001 + i), ctag: uint16(100 + i)}
-		okAuth(b.mac, 240*time.Hour)
+		bgTimeout := 240 * time.Hour
+		if tc.shape() == "stale" && tc.Path == "session-timeout" {
+			bgTimeout = time.Duration(p.SessS) * time.Second // they time out in the same sweep as the session under test
+		}
+		okAuth(b.mac, bgTimeout)
 		if !x.establish(b, fmt.Sprintf("bg%d", i), "active") {
 			return
 		}
@@ -624,6 +657,67 @@ func runSubMgrInBubble(tc *tcase, rs *radServer, res *result, dir string) {
 		if len(res.viol) == 0 {
 			x.oracle(sigPath, pre, preAlloc, preSessions, nil)
 		}
+	case "stale":
+		sp := secondPath(tc.Second)
+		all := append([]*smSess{x.me}, x.bg...)
+		x.gate.arm("alloc", "*")
+		var active []*smSess
+		horizon := time.Duration(p.IdleS) * time.Second
+		if tc.Path == "session-timeout" {
+			active, horizon = all, time.Duration(p.SessS)*time.Second // everybody keeps sending until the time-outs strike
+		}
+		x.advance(horizon+45*time.Second, active)
+		select {
+		case <-x.gate.parked:
+		default:
+			res.harness = "the sweep never reached the allocator"
+			return
+		}
+		var victim *smSess
+		for _, ts := range all {
+			if _, alive := x.mgr.GetSession(ts.id); alive && (ts.ip == nil || ts.ip.String() != x.gate.hitID) {
+				victim = ts
+				break
+			}
+		}
+		x.allEnded = true
+		if victim == nil {
+			res.classes = append(res.classes, "stale:nothing-left")
+		} else {
+			if victim == x.me {
+				res.classes = append(res.classes, "stale:victim-is-test-session")
+			} else {
+				res.classes = append(res.classes, "stale:victim-is-background-session")
+			}
+			res.logf("  the sweep took its list and is releasing %s; meanwhile session %s ends by %s", x.gate.hitID, victim.id, sp)
+			x.terminateOn(sp, victim)
+			if _, alive := x.mgr.GetSession(victim.id); alive {
+				res.fail("C16/submgr/"+sp+"/entry", "session %s is still in the manager after %s (a sweep was in progress on another session)", victim.id, sp)
+			}
+		}
+		r1 := len(rs.records())
+		ev1 := 0
+		if victim != nil {
+			ev1 = x.termEvents(victim.id)
+		}
+		x.gate.open()
+		synctest.Wait()
+		x.advance(35*time.Second, nil)
+		synctest.Wait()
+		if victim != nil && len(res.viol) == 0 {
+			res.classes = append(res.classes, "stale:reached")
+			for _, r := range rs.records()[r1:] {
+				if r.SID == victim.id {
+					res.fail("C16/submgr/stale/second-sends-acct", "the sweep came to session %s after %s had ended it and sent %v", victim.id, sp, r)
+				}
+			}
+			if ev2 := x.termEvents(victim.id); ev2 != ev1 {
+				res.fail("C16/submgr/stale/second-emits-terminate-event", "the sweep came to session %s after %s had ended it and emitted %d more terminate event(s)", victim.id, sp, ev2-ev1)
+			}
+		}
+		if len(res.viol) == 0 {
+			x.oracleAll("stale", pre0, all)
+		}
 	case "parked":
 		sp := secondPath(tc.Second)
 		x.gate.arm("alloc", x.me.ip.String())
@@ -674,6 +768,43 @@ func runSubMgrInBubble(tc *tcase, rs *radServer, res *result, dir string) {
 		}
 		if len(res.viol) == 0 {
 			x.oracle("parked", pre, preAlloc, preSessions, victim)
+		}
+	}
+}
+
+// oracleAll: every session of the case has ended (stale family): nothing at all may remain.
+func (x *smRun) oracleAll(sigPath string, pre0 *census, all []*smSess) {
+	tc, res := x.tc, x.res
+	sig := func(r string) string { return "C16/submgr/" + sigPath + "/" + r }
+	acctOracle(res, tc, x.rs.records(), func(acctRec) bool { return true }, sigPath)
+	for _, b := range x.rs.problems() {
+		res.harness = "scripted RADIUS server: " + b
+	}
+	if n := len(x.mgr.ListSessions()); n != 0 {
+		res.fail(sig("entry"), "the manager still holds %d session(s) although all of them expired or were terminated", n)
+	}
+	if n := x.alloc.allocated(); n != 0 {
+		res.fail(sig("pool"), "the allocator still holds %d address(es)", n)
+	}
+	x.alloc.mu.Lock()
+	free, calls := x.alloc.freeRel, map[string]int{}
+	for k, v := range x.alloc.calls {
+		calls[k] = v
+	}
+	x.alloc.mu.Unlock()
+	if free != 0 {
+		res.fail(sig("address-released-twice"), "ReleaseIPv4 was called %d time(s) for an address that was free; calls per address: %v", free, calls)
+	}
+	for _, ts := range all {
+		if n := x.termEvents(ts.id); n != 1 {
+			res.fail(sig("terminate-event"), "%d terminate events were emitted for session %s, expected exactly one", n, ts.id)
+		}
+		if s, ok := x.mgr.GetSessionByMAC(ts.mac); ok {
+			res.fail(sig("entry"), "the MAC index still has an entry for %s (%v)", ts.mac, s)
+		}
+		x.w.planeOracle(res, tc, sigPath, pre0, sessionIdent{MAC: ts.mac, IP: ts.ip, Cid: ts.cid, STag: ts.stag, CTag: ts.ctag, HasVLAN: ts.stag != 0 || ts.ctag != 0})
+		if len(res.viol) > 0 {
+			return
 		}
 	}
 }
